@@ -52,6 +52,9 @@ func init() {
 				if i%5 == 2 {
 					cs["debug"] = true
 				}
+				if i%11 == 6 {
+					cs["emptyFlags"] = [][]string{{"--velocity"}, {"--key"}, {"--meter"}, {"--velocity", "--key", "--meter"}, {"--instrument"}}[rng.Intn(5)]
+				}
 				if i%9 == 4 { // a time signature whose denominator is not a power of two: whatever value is written, the file stays a file
 					dn := []int{3, 5, 6, 7, 12, 24}[rng.Intn(6)]
 					if rng.Intn(2) == 0 {
@@ -108,6 +111,9 @@ func init() {
 			}
 			if cb(k, "debug") {
 				args = append(args, "--debug")
+			}
+			for _, ef := range css(k, "emptyFlags") { // a string flag given as the empty string: whatever it means, the file stays a file
+				args = append(args, ef, "")
 			}
 			var out []byte
 			success := false
